@@ -264,7 +264,7 @@ CODEC_ASSUME = [
 ]
 
 
-USER_ASSUME = ["user-defined structure types: random types built with reflect.StructOf; their declarations are handed to the extracted models (UserTypes.v: Fields.v's descriptor builder, elaboration, the schema-generic encoder / decoder of Codec.v) - groups u-desc (descriptor, through the VerifStructDesc hook), u-enc, u-dec; descriptor errors are generated in the top structure only (the library finds a bad nested type lazily, the elaborated schema is eager)"]
+USER_ASSUME = ["user-defined structure types: random types built with reflect.StructOf; their declarations are handed to the extracted models (UserTypes.v: Fields.v's descriptor builder, elaboration, the schema-generic encoder / decoder of Codec.v) - groups u-desc (descriptor, through the VerifStructDesc hook), u-enc, u-dec; descriptor errors occur in the top structure (rejected up front) and in nested structure types (found lazily, when a value reaches the field: the elaboration marks such a position as one no value can occupy)"]
 
 
 def first_word(s):
@@ -285,6 +285,9 @@ def check_C02(ctx):
                 ctx.violation("bytes", {"what": "Encode output differs from the canonical TTLV serialisation (ser . to_tree)",
                                         "value": cmd.split(" ", 1)[1], "implementation": short(impl, 2000), "canonical": short(model, 2000)},
                               found_input=first_word(impl) in ("ok", "err", "panic", "err-wrote"))
+    if rep is not None:
+        for v in [x for x in rep["violations"] if x.get("kind") == "encode-mutates-input"][:3]:
+            ctx.violation("mutates-input", v)
     # history and concurrency independence (impl-only oracle)
     if rep is not None:
         rc, hrep, out, err = run_harness(["history", "-seed", str(ctx.seed), "-n", "40" if ctx.tier == "quick" else "400"])
